@@ -29,6 +29,9 @@ pub enum Form {
     AllKeyStringsMixed(u32),
     OfKeyStringsMixed(u64, u32),
     PlainStringsMixed(u32),
+    /// string members whose occurrences overlap in the value when neighbours are both true
+    AllKeyOverlap,
+    OfKeyOverlap(u64),
     PlainList,
     Not,
     NotKey,
@@ -126,6 +129,14 @@ pub fn rule_for(form: &Form, k: usize) -> RuleAst {
             idents.push(("A".into(), Ident::Map(vec![(Key::plain("k"), mixed_members(k, *mask))])));
             cond = Cond::id("A");
         }
+        Form::AllKeyOverlap => {
+            idents.push(("A".into(), Ident::Map(vec![(Key::with("k", KMod::All), overlap_members(k))])));
+            cond = Cond::id("A");
+        }
+        Form::OfKeyOverlap(n) => {
+            idents.push(("A".into(), Ident::Map(vec![(Key::with("k", KMod::Of(*n)), overlap_members(k))])));
+            cond = Cond::id("A");
+        }
         Form::PlainList => {
             idents.push(("A".into(), Ident::Map(vec![(Key::plain("k"), nested_members())])));
             cond = Cond::id("A");
@@ -167,6 +178,13 @@ fn mixed_members(k: usize, mask: u32) -> RVal {
     )
 }
 
+fn overlap_members(k: usize) -> RVal {
+    RVal::List((0..k).map(|i| RVal::Str(format!("*x{}.x{}.*", i, i + 1))).collect())
+}
+fn uses_k_overlap(form: &Form) -> bool {
+    matches!(form, Form::AllKeyOverlap | Form::OfKeyOverlap(_))
+}
+
 fn uses_k_object(form: &Form) -> bool {
     matches!(form, Form::AllKeyNested | Form::OfKeyNested(_) | Form::PlainList)
 }
@@ -187,6 +205,33 @@ pub fn doc_for(form: &Form, vec: &[u8]) -> Option<DVal> {
     }
     if uses_k_object(form) {
         Some(DVal::Obj(vec![("k".to_string(), DVal::Obj(fields))]))
+    } else if uses_k_overlap(form) {
+        if vec.iter().all(|v| *v == 2) {
+            Some(DVal::Obj(vec![]))
+        } else if vec.iter().any(|v| *v == 2) {
+            None
+        } else {
+            // maximal runs of true members i..j become one piece x{i}.x{i+1}. .. x{j+1}. in which
+            // neighbouring needles share a token
+            let mut s = String::from("_");
+            let mut i = 0;
+            while i < vec.len() {
+                if vec[i] == 0 {
+                    let mut j = i;
+                    while j + 1 < vec.len() && vec[j + 1] == 0 {
+                        j += 1;
+                    }
+                    for t in i..=(j + 1) {
+                        s.push_str(&format!("x{}.", t));
+                    }
+                    s.push('_');
+                    i = j + 1;
+                } else {
+                    i += 1;
+                }
+            }
+            Some(DVal::Obj(vec![("k".to_string(), DVal::Str(s))]))
+        }
     } else if uses_k_string(form) {
         // string members are all missing together (field absent) or each T/F
         if vec.iter().all(|v| *v == 2) {
@@ -206,8 +251,8 @@ fn expected(form: &Form, sets: &[TS]) -> TS {
     match form {
         Form::AndChain | Form::Mapping => and_ordered(sets),
         Form::OrChain | Form::Sequence | Form::PlainList | Form::PlainStringsMixed(_) => or3(sets),
-        Form::AllIdentMap | Form::AllIdentSeq | Form::AllKeyNested | Form::AllKeyStrings | Form::AllKeyStringsMixed(_) => all3(sets),
-        Form::OfIdentMap(n) | Form::OfIdentSeq(n) | Form::OfKeyNested(n) | Form::OfKeyStrings(n) | Form::OfKeyStringsMixed(n, _) => of3(sets, *n),
+        Form::AllIdentMap | Form::AllIdentSeq | Form::AllKeyNested | Form::AllKeyStrings | Form::AllKeyStringsMixed(_) | Form::AllKeyOverlap => all3(sets),
+        Form::OfIdentMap(n) | Form::OfIdentSeq(n) | Form::OfKeyNested(n) | Form::OfKeyStrings(n) | Form::OfKeyStringsMixed(n, _) | Form::OfKeyOverlap(n) => of3(sets, *n),
         Form::Not | Form::NotKey => not3(sets[0]),
         Form::NotGroupAnd => not3(and_ordered(sets)),
         Form::NotGroupOr => not3(or3(sets)),
@@ -230,6 +275,12 @@ pub fn forms_for(k: usize) -> Vec<Form> {
         v.push(Form::OfIdentSeq(n));
         v.push(Form::OfKeyNested(n));
         v.push(Form::OfKeyStrings(n));
+    }
+    if (2..=9).contains(&k) {
+        v.push(Form::AllKeyOverlap);
+        for n in ns.iter().cloned() {
+            v.push(Form::OfKeyOverlap(n));
+        }
     }
     if (2..=4).contains(&k) {
         for mask in 1..3u32.pow(k as u32) {
@@ -379,7 +430,7 @@ pub fn run(ctx: &Ctx) -> i32 {
         ctx,
         rep,
         Meta {
-            rule: "complete enumeration: forms {binary and/or chain, mapping, sequence of mappings, all(X)/of(X,n) over map and sequence identifiers, all(k)/of(k,n)/plain list over nested-mapping members and over string members, not, not(k), not over groups} x arity 1..5 x every operand vector in {T,F,M}^k x n in 0..k+1, string members also in every mix of kinds (contains / case-insensitive contains / regex, arity 2..4), and arities 8, 9, 16, 17, 33 (64, 65 thorough) with uniform, one-deviation and sampled vectors and thresholds {0,1,2,k/2,k-1,k,k+1}; observed three-valued (hook H2, cross-checked with the not-probe pair) against the tables of the statement. non-trivial = cell with at least one F or M operand; distinct = (form, arity, vector, n)".into(),
+            rule: "complete enumeration: forms {binary and/or chain, mapping, sequence of mappings, all(X)/of(X,n) over map and sequence identifiers, all(k)/of(k,n)/plain list over nested-mapping members and over string members, not, not(k), not over groups} x arity 1..5 x every operand vector in {T,F,M}^k x n in 0..k+1, string members also with needles that overlap in the value and in every mix of kinds (contains / case-insensitive contains / regex, arity 2..4), and arities 8, 9, 16, 17, 33 (64, 65 thorough) with uniform, one-deviation and sampled vectors and thresholds {0,1,2,k/2,k-1,k,k+1}; observed three-valued (hook H2, cross-checked with the not-probe pair) against the tables of the statement. non-trivial = cell with at least one F or M operand; distinct = (form, arity, vector, n)".into(),
             exhaustive: true,
             assumptions: vec!["where the statement fixes only truth (all/of when not true) false vs missing is recorded under counters.pinned.*, not judged".into()],
             min_nontrivial: 500,
